@@ -127,6 +127,11 @@ Theorem C19_shard_count_from_source : forall n : N, (n <= 65536)%N ->
   gf_internal_ToBinaryNumber (Z.of_N n) = Z.of_N (to_binary_number n).
 Proof. exact gen_ToBinaryNumber_is. Qed.
 
+(* ... and the shard a key goes to: `hashCode & (c.num - 1)` as regenerated from GetSharding is the model's cm_index *)
+Theorem C19_shard_index_from_source : forall (hash : N -> N) num k, (1 <= num < 2 ^ 64)%N ->
+  Z.to_nat (gf_gws_ConcurrentMap_GetSharding_index (Z.of_N num) (Z.of_N (hash k))) = cm_index hash num k.
+Proof. exact gen_shard_index_is. Qed.
+
 Print Assumptions C19_index_go.
 Print Assumptions C19_index_mod.
 Print Assumptions C19_refines_map_step.
@@ -140,3 +145,4 @@ Print Assumptions C19_len_bounds.
 Print Assumptions C19_range_once.
 Print Assumptions C19_replay_is_abs.
 Print Assumptions C19_shard_count_from_source.
+Print Assumptions C19_shard_index_from_source.
